@@ -39,6 +39,13 @@ def _unescape(c):
     return out
 
 
+def _pname(port):
+    """a port's name; a nameless port (positional map on a never-declared module) is called by its position"""
+    if port.name is not None:
+        return port.name
+    return "#%d" % list(port.definition.ports).index(port)
+
+
 def _extract(n):
     s = core.sdn()
     out = {"modules": {}, "primitives": {}, "top": None}
@@ -50,7 +57,7 @@ def _extract(n):
             continue
         if lib.name == "hdi_primitives":
             for d in lib.definitions:
-                out["primitives"][d.name] = [(p.name, DIRNAME[p.direction.name], len(p.pins)) for p in d.ports]
+                out["primitives"][d.name] = [(_pname(p), DIRNAME[p.direction.name], len(p.pins)) for p in d.ports]
             continue
         for d in lib.definitions:
             cables, conn, insts, assigns = {}, {}, {}, []
@@ -64,7 +71,7 @@ def _extract(n):
                             if x.reference.library is not None and x.reference.library.name == ASSIGN_LIB:
                                 continue
                             ip = p.inner_pin
-                            eps.add(("I", x.name, ip.port.name, list(ip.port.pins).index(ip)))
+                            eps.add(("I", x.name, _pname(ip.port), list(ip.port.pins).index(ip)))
                         else:
                             eps.add(("P", p.port.name, list(p.port.pins).index(p)))
                     if eps:
